@@ -13,7 +13,8 @@ Definition mem_of (R : routes) : Mem := fun r i => In (r, i) R.
 (* M' is M with route r0 set to d (an existing catch-all route keeps its old info) *)
 Definition InsM (M M' : Mem) (r0 : route) (d : info) : Prop :=
   (forall r i, r <> r0 -> (M' r i <-> M r i))
-  /\ (M' r0 d \/ (ends_in_wild r0 = true /\ exists o, M r0 o /\ M' r0 o)).
+  /\ (M' r0 d \/ (ends_in_wild r0 = true /\ exists o, M r0 o /\ M' r0 o))
+  /\ (ends_in_wild r0 = true -> forall o, M r0 o -> M' r0 o).
 
 Lemma ends_in_wild_app pre r : r <> [] -> ends_in_wild (pre ++ r) = ends_in_wild r.
 Proof.
@@ -26,14 +27,25 @@ Lemma InsM_lift (X C C' M M' : Mem) pre r0' d :
   (forall r i, M r i <-> X r i \/ exists r', r = pre ++ r' /\ C r' i) ->
   (forall r i, M' r i <-> X r i \/ exists r', r = pre ++ r' /\ C' r' i) ->
   (ends_in_wild r0' = true -> r0' <> []) ->
+  (r0' = [] -> ends_in_wild pre = true -> forall o, C [] o -> C' [] o) ->
   InsM C C' r0' d -> InsM M M' (pre ++ r0') d.
 Proof.
-  intros HM HM' Hw [Ha Hb]. split.
+  intros HM HM' Hw Hnil (Ha & Hb & Hc). split; [|split].
   - intros r i Hne. rewrite HM, HM'. split; intros [H|(r' & -> & H)]; auto; right; exists r'; split; auto;
       apply (Ha r' i); auto; intros ->; apply Hne; reflexivity.
   - destruct Hb as [Hb|(Hw' & o & Ho & Ho')].
     + left. apply HM'. right. exists r0'. auto.
     + right. split; [rewrite ends_in_wild_app; auto|]. exists o. split; [apply HM|apply HM']; right; exists r0'; auto.
+  - intros Hwd o Ho. apply HM'. apply HM in Ho as [Ho|(r' & Hr & Ho)]; [left; exact Ho|].
+    right. exists r'. split; [exact Hr|]. apply app_inv_head in Hr. subst r'.
+    destruct r0' as [|a0 r0''].
+    + rewrite app_nil_r in Hwd. apply (Hnil eq_refl Hwd o Ho).
+    + apply Hc; [rewrite ends_in_wild_app in Hwd by discriminate; exact Hwd|exact Ho].
+Qed.
+
+Lemma ends_in_wild_AB k : ends_in_wild (map AB k) = false.
+Proof.
+  unfold ends_in_wild. rewrite <- map_rev. destruct (rev k); reflexivity.
 Qed.
 
 Lemma ends_in_wild_nonempty r : ends_in_wild r = true -> r <> [].
@@ -152,10 +164,11 @@ Proof. intros H. exact H. Qed.
 Lemma InsM_ext (M1 M2 M1' M2' : Mem) r0 d :
   (forall r i, M1 r i <-> M2 r i) -> (forall r i, M1' r i <-> M2' r i) -> InsM M1 M1' r0 d -> InsM M2 M2' r0 d.
 Proof.
-  intros H H' [Ha Hb]. split.
+  intros H H' (Ha & Hb & Hc). split; [|split].
   - intros r i Hne. rewrite <- H, <- H'. apply Ha. exact Hne.
   - destruct Hb as [Hb|(Hw & o & Ho & Ho')]; [left; apply H'; exact Hb|].
     right. split; [exact Hw|]. exists o. split; [apply H|apply H']; assumption.
+  - intros Hw o Ho. apply H'. apply Hc; [exact Hw|apply H; exact Ho].
 Qed.
 
 Definition RM (n : node) : Mem := mem_of (routes_of n).
@@ -165,11 +178,13 @@ Lemma InsM_kind_replace n n' k a x b c' r0' d :
   kids k n = a ++ x :: b -> kids k n' = a ++ (fst x, c') :: b ->
   n_data n' = n_data n -> n_st n' = n_st n -> (forall k', k' <> k -> kids k' n' = kids k' n) ->
   is_end k = false -> (ends_in_wild r0' = true -> r0' <> []) ->
+  (r0' = [] -> is_dyn k = true) ->
   InsM (RM (snd x)) (RM c') r0' d ->
   InsM (RM n) (RM n') ([head_atom k (fst x)] ++ r0') d.
 Proof.
-  intros Hk Hk' Hd Hs Ho He Hw HI.
-  apply (InsM_lift (KdX (n_data n) (n_st n) (fun k => kids k n) k a b) (RM (snd x)) (RM c')); auto.
+  intros Hk Hk' Hd Hs Ho He Hw Hdy HI.
+  apply (InsM_lift (KdX (n_data n) (n_st n) (fun k => kids k n) k a b) (RM (snd x)) (RM c')); auto;
+    [| |intros Hnil Hwd; specialize (Hdy Hnil); destruct k; discriminate].
   - intros r i. unfold RM, mem_of. rewrite (mem_kind_slot n k a x b Hk). unfold kid_routes. rewrite He. reflexivity.
   - intros r i. unfold RM, mem_of. rewrite (mem_kind_slot n' k a (fst x, c') b Hk'). cbn [fst snd]. unfold kid_routes. rewrite He.
     rewrite Hd, Hs. rewrite (KdX_ext _ _ (fun k0 => kids k0 n) (fun k0 => kids k0 n')); [reflexivity|exact Ho].
@@ -184,7 +199,7 @@ Lemma InsM_kind_snoc n n' k ky c' r0' d (C' : Mem) :
   InsM (RM n) (RM n') ([head_atom k ky] ++ r0') d.
 Proof.
   intros Hk' Hd Hs Ho HC Hw HI.
-  apply (InsM_lift (RM n) (fun _ _ => False) C'); auto.
+  apply (InsM_lift (RM n) (fun _ _ => False) C'); auto; [| |intros _ _ o []].
   - intros r i. split; [auto|]. intros [H|(r' & _ & [])]. exact H.
   - intros r i. unfold RM, mem_of. rewrite (mem_kind_slot n' k (kids k n) (ky, c') [] Hk'). cbn [fst snd].
     rewrite Hd, Hs. rewrite (KdX_ext _ _ (fun k0 => kids k0 n) (fun k0 => kids k0 n')) by exact Ho.
@@ -199,7 +214,8 @@ Lemma InsM_static_replace n n' a x b c' r0' d :
   InsM (RM n) (RM n') (map AB (fst (fst x)) ++ r0') d.
 Proof.
   intros Hs Hs' Hd Hk Hw HI.
-  apply (InsM_lift (StX (n_data n) (fun k => kids k n) a b) (RM (snd x)) (RM c')); auto.
+  apply (InsM_lift (StX (n_data n) (fun k => kids k n) a b) (RM (snd x)) (RM c')); auto;
+    [| |intros _ Hwd; rewrite ends_in_wild_AB in Hwd; discriminate].
   - intros r i. unfold RM, mem_of. apply (mem_static_slot n a x b Hs).
   - intros r i. unfold RM, mem_of. rewrite (mem_static_slot n' a (fst x, c') b Hs'). cbn [fst snd].
     rewrite Hd. rewrite (StX_ext _ (fun k0 => kids k0 n) (fun k0 => kids k0 n')); [reflexivity|exact Hk].
@@ -213,7 +229,7 @@ Lemma InsM_static_snoc n n' p c' r0' d :
   InsM (RM n) (RM n') (map AB p ++ r0') d.
 Proof.
   intros Hs' Hd Hk Hw HI.
-  apply (InsM_lift (RM n) (fun _ _ => False) (RM c')); auto.
+  apply (InsM_lift (RM n) (fun _ _ => False) (RM c')); auto; [| |intros _ _ o []].
   - intros r i. split; [auto|]. intros [H|(r' & _ & [])]. exact H.
   - intros r i. unfold RM, mem_of. rewrite (mem_static_slot n' (n_st n) ((p, None), c') [] Hs'). cbn [fst snd].
     rewrite Hd. rewrite (StX_ext _ (fun k0 => kids k0 n) (fun k0 => kids k0 n')) by exact Hk.
@@ -244,7 +260,8 @@ Proof.
   destruct (existsb _ (kids k n)) eqn:Ex.
   - apply existsb_exists in Ex as (kc & Hkc & Hk). apply keqb_eq in Hk. subst ky.
     destruct (wn_end n W k kc He Hkc) as [Hd _]. apply has_data_some in Hd as (o & Ho).
-    split; [intros r i _; reflexivity|]. right. split; [destruct k; try discriminate; reflexivity|].
+    split; [intros r i _; reflexivity|]. split; [|intros _ o' Ho'; exact Ho'].
+    right. split; [destruct k; try discriminate; reflexivity|].
     assert (Hin : RM n ([head_atom k (fst kc)] ++ []) o).
     { unfold RM, mem_of. apply in_routes_of. right. right. exists k, kc, []. repeat split; auto.
       unfold kid_routes. rewrite He, Ho. left; reflexivity. }
@@ -257,7 +274,7 @@ Proof.
     + intros r i. unfold kid_routes. rewrite He. cbn. split; [intros [-> ->]; left; reflexivity|].
       intros [H|[]]. inversion H; auto.
     + discriminate.
-    + split; [intros r i Hne; split; [intros [E _]; congruence|intros []]|left; auto].
+    + split; [intros r i Hne; split; [intros [E _]; congruence|intros []]|split; [left; auto|intros _ o []]].
 Qed.
 
 (* ---- dynamic / mid-route wildcard ---- *)
@@ -266,6 +283,7 @@ Lemma insert_routes_param f
                           InsM (RM n) (RM (insert f n ps d)) (atoms_of ps) d)
   n ps' d k ky :
   parts_size ps' < f -> wf n = true -> is_end k = false -> parts_wf true ps' = true ->
+  (atoms_of ps' = [] -> is_dyn k = true) ->
   InsM (RM n)
        (RM (match upd_first (fun kc : key * node => keqb (fst kc) ky)
                             (fun kc => (fst kc, insert f (snd kc) ps' d)) (kids k n) with
@@ -274,7 +292,7 @@ Lemma insert_routes_param f
             end))
        ([head_atom k ky] ++ atoms_of ps') d.
 Proof.
-  intros Hfuel Hwf He Hps. pose proof (wf_unpack n Hwf) as W.
+  intros Hfuel Hwf He Hps Hdy. pose proof (wf_unpack n Hwf) as W.
   destruct (upd_first _ _ (kids k n)) as [l|] eqn:Eu.
   - apply upd_first_some in Eu as (a & x & b & Hl & Hx & _ & ->). apply keqb_eq in Hx. subst ky.
     assert (Hxin : In x (kids k n)) by (rewrite Hl; apply in_or_app; right; left; reflexivity).
@@ -398,6 +416,7 @@ Proof.
         -- intros r i. unfold RM, mem_of. rewrite (mem_static_slot _ a _ b Hst). cbn [fst snd].
            rewrite Hdat, Hfirst, Hpp. rewrite (StX_ext _ (fun k0 => kids k0 n) _ a b r i Hkd). reflexivity.
         -- apply ends_in_wild_nonempty.
+        -- intros _ Hwd. rewrite ends_in_wild_AB in Hwd. discriminate.
       * (* both continue *)
         apply Nat.leb_gt in Epl.
         assert (Hpsplit : p = firstn cp k0 ++ skipn cp p) by (rewrite Hfirst; symmetry; apply firstn_skipn).
@@ -418,6 +437,7 @@ Proof.
               ** exists (map AB (skipn cp p) ++ r'). split; [rewrite Hr, Hpsplit at 1; rewrite map_app, <- app_assoc; reflexivity|].
                  apply routes_of_two_static. right. eauto.
         -- apply ends_in_wild_nonempty.
+        -- intros _ _ o [].
   - apply (InsM_static_snoc n _ p (insert f empty_node ps d) (atoms_of ps) d);
       [rewrite st_set_dirty, st_set_st; reflexivity
       |rewrite data_set_dirty, data_set_st; reflexivity
@@ -444,7 +464,8 @@ Proof.
         split; intros [[E _]|[H|(k & kc & r' & Hkc & Hr)]]; try congruence; auto; right; right; exists k, kc, r'.
         -- rewrite kids_set_dirty, kids_set_data in Hkc. auto.
         -- rewrite kids_set_dirty, kids_set_data. auto.
-      * left. unfold RM, mem_of. apply in_routes_data. rewrite data_set_dirty, data_set_data. reflexivity.
+      * split; [|intros Hw; discriminate].
+        left. unfold RM, mem_of. apply in_routes_data. rewrite data_set_dirty, data_set_data. reflexivity.
     + rewrite atoms_of_cons. destruct p0 as [s|nm c|nm c]; cbn [atoms_of_part parts_size parts_wf] in *.
       * (* literal *)
         apply andb_true_iff in Hps as [Hs Hps].
@@ -462,6 +483,7 @@ Proof.
         -- assert (Hps' : ps' = []) by (destruct c, ps'; inversion Epk; subst; try discriminate; reflexivity).
            subst ps'. cbn [atoms_of flat_map].
            apply (insert_routes_end n d k (nm, c)); auto.
-        -- apply (insert_routes_param f IHi n ps' d k (nm, c)); auto. lia.
+        -- apply (insert_routes_param f IHi n ps' d k (nm, c)); auto; [lia|].
+           intros Hnil. exfalso. apply (parts_wf_atoms_nonempty true ps' Hps (Hne eq_refl) Hnil).
   - apply (insert_routes_static f IHi IHs).
 Qed.
